@@ -590,3 +590,7 @@ _add(
     m("same-path-stage-returns-unrefreshed", "redun/file.py", "            self.local.update_hash()\n            return self.local\n\n        return self.remote.copy_to(self.local)\n\n    def unstage(self) -> File:", "            return self.local\n\n        return self.remote.copy_to(self.local)\n\n    def unstage(self) -> File:", "C30.5"),
     m("remove-keeps-cached-hash", "redun/file.py", "        self.filesystem.remove(self.path)\n        # Drop the cached hash so the next access hashes the (now missing) path.\n        self._hash = None", "        self.filesystem.remove(self.path)", "C30.5"),
 )
+_add(
+    "C12",
+    m("only-invalid-value-error-is-a-miss", D, "        except Exception:\n            # Unpickling can raise nearly anything", "        except InvalidValueError:\n            # Unpickling can raise nearly anything", "C12.7"),
+)
